@@ -17,12 +17,16 @@ def main():
         cls = case["cls"]
         ctor = getattr(magpy.magnet, cls, None) or getattr(magpy.current, cls, None) or getattr(magpy.misc, cls)
         kw = {k: (np.array(v) if isinstance(v, list) else v) for k, v in case["kw"].items()}
-        src = ctor(**kw)
         obs = np.array(case["obs"], dtype=float)
+        # the functional interface takes geometry the classes refuse (a side length of 0: a sheet, a line, a point)
+        src = cls if case.get("functional") else ctor(**kw)
         res = {}
         print("CASE", case["id"], flush=True)
         for f in "BHJM":
-            v = getattr(magpy, "get" + f)(src, obs, squeeze=False)
+            if case.get("functional"):
+                v = np.asarray(getattr(magpy, "get" + f)(src, obs, **kw), dtype=float).reshape(1, 1, 1, len(obs), 3)
+            else:
+                v = getattr(magpy, "get" + f)(src, obs, squeeze=False)
             res[f] = {"shape": list(v.shape), "finite": np.isfinite(v).all(axis=-1).reshape(-1).tolist()}
             if case.get("want_values") and f in "BHJ":  # the triangle-sheet classes: values for the accuracy assertions of the parent
                 res[f]["val"] = np.asarray(v, dtype=float).reshape(-1, 3).tolist()
